@@ -18,14 +18,18 @@ from vp.core import Check, Failure, load_corpus
 
 META = dict(
     level_text="Lean 4 theorems over all message histories (register, disconnect, RunStartedMsg, RunStoppedMsg of any number "
-               "of engines with arbitrary run ids, in any order and multiplicity): no run id ever has two PlotLogs rows "
+               "of engines with arbitrary run ids, graceful restarts and crashes of the aggregator process, in any order and "
+               "multiplicity): no run id ever has two PlotLogs rows "
                "or two RecentRuns rows; after the first handled RunStartedMsg a run has exactly one plot log for ever; "
                "after the run ended (RunStoppedMsg or superseded by another start) it has exactly one recent-run record and "
                "one plot log for ever; a run open at a disconnect is restored by the re-registration whatever arrives in "
-               "between (the engine's own messages are dropped, other engines go on) and is recorded at its end. Model tied to "
+               "between (the engine's own messages are dropped, other engines go on, the aggregator restarts or crashes) and is "
+               "recorded at its end; the same after an aggregator restart / crash during the run. Model tied to "
                "the aggregator's handlers + repositories (in-memory SQLite) by differential execution, exhaustive over all "
                "one-engine histories up to length 3/5 over 6 symbols (quick: also length 4 after register) and all two-engine "
-               "histories up to length 2/3 over 12 symbols, plus generated histories.",
+               "histories up to length 2/3 over 12 symbols and all continuations up to length 3/4 of a started run over {register, "
+               "disconnect, start, stop, restart, crash, command of user 0 / user 1}, plus generated histories (0, 1, 2+ "
+               "contributing users per run via FromFrontend.add_contributor).",
     level_note="The model follows the code with fixes/C30-one-record-per-run.diff applied (8 added lines: create_plot_log and "
                "store_recent_run look the run id up first). Trusted: Lean kernel, the harness, SQLite/SQLAlchemy as row lists. "
                "Registration is the accepted path; DB writes succeed; an aggregator process restart without shutdown() is "
@@ -39,7 +43,7 @@ META = dict(
     technique="Lean 4 proof (state invariant by induction over the history) + differential correspondence",
 )
 MODULE = "OPM.Properties.C30"
-REQUIRED = ["OPM.C30.at_most_one", "OPM.C30.started_run_has_exactly_one_plot_log",
+REQUIRED = ["OPM.C30.run_survives_aggregator_restart", "OPM.C30.at_most_one", "OPM.C30.started_run_has_exactly_one_plot_log",
             "OPM.C30.stopped_run_has_exactly_one_of_each", "OPM.C30.superseded_run_has_exactly_one_of_each",
             "OPM.C30.records_are_paired", "OPM.C30.run_survives_reconnect", "OPM.C30.unrepaired_counterexample",
             "OPM.C30.unregistered_messages_are_dropped", "OPM.C30.other_engines_untouched",
@@ -53,6 +57,8 @@ def rid(k: int) -> str:
 
 def norm(op) -> list:
     """op = [kind, engine, (run)]; the older one-engine form [kind, (run)] means engine 0"""
+    if op[0] in ("restart", "crash"):
+        return [op[0]]
     if op[0] in ("register", "disconnect"):
         return [op[0], op[1] if len(op) > 1 else 0]
     return [op[0], 0, op[1]] if len(op) == 2 else [op[0], op[1], op[2]]
@@ -74,9 +80,15 @@ def execute(case) -> tuple[list[str], list[dict]]:
 
     for raw in case["ops"]:
         op = norm(raw)
-        e = op[1]
+        e = op[1] if len(op) > 1 else None
         try:
-            if op[0] == "register":
+            if op[0] in ("restart", "crash"):
+                h.restart(graceful=op[0] == "restart")
+                kind = "ok"
+            elif op[0] == "contribute":
+                h.contribute(op[2], engine=e)
+                kind = "ok"
+            elif op[0] == "register":
                 rep = h.register(e)
                 kind = "ok" if rep.success else "refused"
             elif op[0] == "disconnect":
@@ -120,7 +132,7 @@ def oracle(case, obs: list[dict]) -> list[Failure]:
     prev_pl: list[str] = []
     prev_rr: list[str] = []
     open_run: dict[int, str | None] = {}
-    away: dict[int, bool] = {}          # a disconnect happened since the open run was started
+    away: dict[int, str | bool] = {}    # what took the engine's connection away since the open run was started
     registered: dict[int, bool] = {}    # ledger: the engine's last RegisterEngineMsg succeeded and no disconnect followed
 
     def once(key: str, detail: str):
@@ -130,8 +142,14 @@ def oracle(case, obs: list[dict]) -> list[Failure]:
 
     for i, o in enumerate(obs):
         op = o["op"]
-        e = op[1]
+        e = op[1] if len(op) > 1 else None
         site = {"start": "on-run-started", "stop": "on-run-stopped"}.get(op[0], "on-" + op[0])
+        if op[0] in ("restart", "crash"):       # the aggregator process is replaced: every engine has to register again
+            for x in list(registered):
+                registered[x] = False
+            for x, r in open_run.items():
+                if r is not None:
+                    away[x] = op[0]
         for r in set(o["plotlogs"]):
             if o["plotlogs"].count(r) > 1 and prev_pl.count(r) < o["plotlogs"].count(r):
                 how = ("duplicate-of-active-run" if open_run.get(e) == r else
@@ -146,8 +164,8 @@ def oracle(case, obs: list[dict]) -> list[Failure]:
             registered[e] = True
         if op[0] == "disconnect":
             registered[e] = False
-            if open_run.get(e) is not None:
-                away[e] = True
+            if open_run.get(e) is not None and not away.get(e):
+                away[e] = "disconnect"
         if op[0] in ("start", "stop") and registered.get(e) and not o["reply_ok"]:
             # a well-formed run message of a registered engine must be handled; the only legitimate refusal is the
             # error reply to an engine that is not registered (a stop without run data is answered with success)
@@ -164,7 +182,7 @@ def oracle(case, obs: list[dict]) -> list[Failure]:
                 once("no-plot-log-for-started-run", f"op #{i} {op}: handled, but run {r} has no PlotLogs row")
             ended = open_run.get(e)
             if ended is not None and ended != r and ended not in o["recentruns"]:
-                once("no-recent-run-for-run-open-across-disconnect" if away.get(e) else "no-recent-run-for-superseded-run",
+                once(f"no-recent-run-for-run-open-across-{away[e]}" if away.get(e) else "no-recent-run-for-superseded-run",
                      f"op #{i} {op}: run {ended} (opened by a handled RunStartedMsg of engine {e}) was replaced without "
                      f"a RecentRuns row")
             if ended != r:
@@ -173,7 +191,7 @@ def oracle(case, obs: list[dict]) -> list[Failure]:
         if op[0] == "stop" and o["reply_ok"]:
             ended = open_run.get(e)
             if ended is not None and ended not in o["recentruns"]:
-                once("no-recent-run-for-run-open-across-disconnect" if away.get(e) else "no-recent-run-for-ended-run",
+                once(f"no-recent-run-for-run-open-across-{away[e]}" if away.get(e) else "no-recent-run-for-ended-run",
                      f"op #{i} {op}: run {ended} (opened by a handled RunStartedMsg of engine {e}) ended without a "
                      f"RecentRuns row")
             open_run[e] = None
@@ -185,8 +203,8 @@ def oracle(case, obs: list[dict]) -> list[Failure]:
 # ------------------------------------------------------------------------------------------------
 # generators
 
-def _syms(engines: int, runs: int) -> list[list]:
-    out = []
+def _syms(engines: int, runs: int, process: bool = False) -> list[list]:
+    out = [["restart"], ["crash"]] if process else []
     for e in range(engines):
         out += [["register", e], ["disconnect", e]] + [["start", e, r] for r in range(runs)] + [["stop", e, r] for r in range(runs)]
     return out
@@ -204,6 +222,12 @@ def gen_exhaustive(ctx: Check) -> list[dict]:
             cases.append({"ops": [["register", 0]] + [list(s) for s in seq]})
     for _ in range(ctx.n(200, 3000)):           # longer ones, sampled
         cases.append({"ops": [["register", 0]] + [list(ctx.rng.choice(syms)) for _ in range(ctx.rng.randrange(maxlen + 1, maxlen + 5))]})
+    # one run, everything that can happen to it: the aggregator process restarts / crashes, users contribute
+    syms3 = [["register", 0], ["disconnect", 0], ["start", 0, 0], ["stop", 0, 0], ["restart"], ["crash"],
+             ["contribute", 0, 0], ["contribute", 0, 1]]
+    for k in range(1, ctx.n(3, 4) + 1):
+        for seq in itertools.product(syms3, repeat=k):
+            cases.append({"ops": [["register", 0], ["start", 0, 0]] + [list(s) for s in seq]})
     # two engines, run ids shared between them (the tables are keyed by run id only)
     syms2 = _syms(2, 2)
     len2 = ctx.n(2, 3)
@@ -221,6 +245,16 @@ def _engine_life(ctx: Check, e: int, first_run: int) -> list[list]:
     k = first_run
     for _ in range(rng.randrange(1, 5)):
         ops.append(["start", e, k])
+        users = rng.choice([0, 0, 1, 2, 2, 3])      # distinct users sending a command during the run
+        for u in rng.sample(range(4), users):
+            ops.append(["contribute", e, u])
+            if rng.random() < 0.3:
+                ops.append(["contribute", e, u])
+        ctx.count(f"contributors-in-run:{min(users, 2)}{'+' if users >= 2 else ''}")
+        if rng.random() < 0.15:                    # the aggregator process is replaced during the run
+            how = rng.choice(["restart", "crash"])
+            ops += [[how], ["register", e]]
+            ctx.count(f"{how}-during-run")
         if rng.random() < 0.35:
             ops.append(["disconnect", e])
             if rng.random() < 0.3:       # the engine goes on while it is away: its messages reach nobody
@@ -267,7 +301,7 @@ def gen_history(ctx: Check) -> dict:
             ops[i], ops[i + 1] = ops[i + 1], ops[i]
             ctx.count("perturb:swap")
         elif r < 0.90:
-            ops.insert(i, ["disconnect", ops[i][1]])
+            ops.insert(i, ["disconnect", ops[i][1] if len(ops[i]) > 1 else 0])
             ctx.count("perturb:stray-disconnect")
         else:
             del ops[i]
@@ -278,7 +312,7 @@ def gen_history(ctx: Check) -> dict:
 
 def gen_malformed(ctx: Check) -> dict:
     rng = ctx.rng
-    syms = _syms(2 if rng.random() < 0.4 else 1, 4)
+    syms = _syms(2 if rng.random() < 0.4 else 1, 4, process=True) + [["contribute", 0, u] for u in range(3)]
     ctx.count("history:uniform-random")
     return {"ops": [list(rng.choice(syms)) for _ in range(rng.randrange(1, ctx.n(14, 30)))]}
 
@@ -286,7 +320,8 @@ def gen_malformed(ctx: Check) -> dict:
 def nontrivial(case, out) -> bool:
     """some run got a plot log and some message was a duplicate / resend of an earlier one or a disconnect happened"""
     ops = [tuple(norm(o)) for o in case["ops"]]
-    return any("plotlogs=-" not in ln for ln in out) and (len(set(ops)) < len(ops) or any(o[0] == "disconnect" for o in ops))
+    return any("plotlogs=-" not in ln for ln in out) and (len(set(ops)) < len(ops) or
+                                                          any(o[0] in ("disconnect", "restart", "crash") for o in ops))
 
 
 def check_cases(ctx: Check, stream: str, cases: list[dict], selftest: bool) -> None:
@@ -318,7 +353,10 @@ def run(ctx: Check) -> int:
                 "30 % of those with a message sent while away; 15 % of stops never sent; 40 % with an interleaved second "
                 "engine, 1 in 8 of those reusing run ids) perturbed by duplicates, later resends, swaps, stray disconnects, "
                 "drops; plus 15 % uniformly random op sequences over 4 run ids (malformed: messages before registration, "
-                "stops of unknown runs, ...). Non-trivial = a plot log exists and the history contains a repeated message or "
+                "stops of unknown runs, restarts, crashes, user commands). During generated runs 0-3 distinct users send a command "
+                "(FromFrontend.add_contributor) and in 15 % the aggregator process restarts or crashes and the engine registers "
+                "again; exhaustively: all continuations up to length 3 (quick) / 4 (thorough) of [register, start] over 8 symbols "
+                "incl. restart, crash and commands of two users. Non-trivial = a plot log exists and the history contains a repeated message or "
                 "a disconnect.")
     corpus = load_corpus(ctx.id)
     ex = gen_exhaustive(ctx)
